@@ -52,6 +52,10 @@ OBLIGATIONS = [
      "statement": "forall H assumed, every one of the 3600 client cells: announced <-> Spec.cliAdmissible, version >= 1.2, never plain"},
     {"id": "C07_T6_server", "theorem": "Iora.C07.T6_server_matrix", "kind": "proved",
      "statement": "forall H assumed, every one of the 7200 server cells: admitted <-> Spec.srvAdmissible, version >= 1.2, never plain"},
+    {"id": "C07_T6_http_refuted", "theorem": "Iora.C07.T6_http_refuted", "kind": "refuted", "finding": "F20-http",
+     "statement": "NOT (HttpClient matrix: response returned <-> Spec.httpAdmissible in every cell): witness verify, caFile=issuing CA, cert for other.example, https://localhost"},
+    {"id": "C07_T6_http_partial", "theorem": "Iora.C07.T6_http_partial", "kind": "partial",
+     "statement": "forall H assumed, every one of the 2160 HttpClient cells: outside the carve-out nameUnchecked the decision is exact; always version >= 1.2 and never plain"},
     {"id": "C07_T6_only_if", "theorem": "Iora.C07.T6_client_only_if", "kind": "proved",
      "statement": "the property's 'only if' spelled out: announced with verification on => chain, validity, name (by-name), possession, >= TLS 1.2"},
     {"id": "C07_T7_silent", "theorem": "Iora.C07.T7_tls_session_never_clear", "kind": "proved",
@@ -319,7 +323,35 @@ def head(l):
     return l.partition(" | ")[0]
 
 
+def replay(ctx):
+    """Re-run the cell(s) of a replay file on the real code and the model; exit 1 if the failure is still there."""
+    obj = json.load(open(ctx.replay))
+    ops = obj.get("ops") or []
+    ctx.translate(["tls"])
+    ctx.lake_build(MODULES)
+    hb = ctx.build_harness("harness/c07_tls.cpp", sanitize=True, opt="-O0")
+    if not hb or not ops:
+        print("replay: nothing to run (kind=%s)" % obj.get("kind"))
+        return 1 if ctx.violations else 0
+    res = ctx.lockstep("tls", hb, [case("replay", o) for o in ops], timeout=600, impl_env={"C07_WORK": os.path.join(ctx.work, "certs")})
+    still = False
+    for c, impl, model in res:
+        fails, finding = monitor(c["ops"][0], impl[0])
+        print("op    %s\n impl  %s\n model %s" % (c["ops"][0], impl[0][:300], model[0][:300]))
+        for f in fails:
+            print("PROPERTY FAILS:", f[:300])
+        if finding:
+            print("counted under recorded finding:", finding)
+        still = still or bool(fails) or head(impl[0]) != model[0]
+    print("replay: %s" % ("still failing" if still else "no longer failing"))
+    import shutil
+    shutil.rmtree(ctx.work, ignore_errors=True)
+    return 1 if still else 0
+
+
 def run(ctx: Ctx):
+    if ctx.replay:
+        return replay(ctx)
     quick = ctx.tier == "quick"
     rng = ctx.rng
     ctx.translate(["tls"])
@@ -327,7 +359,7 @@ def run(ctx: Ctx):
     if ok_build:
         ctx.audit(MODULES, OBLIGATIONS)
         if not quick:
-            ctx.leanchecker(MODULES + ["IoraModel.Lemmas.TlsPlan", "IoraModel.Lemmas.TlsMatrixCli", "IoraModel.Lemmas.TlsMatrixSrv", "IoraModel.Model.TlsPlan",
+            ctx.leanchecker(MODULES + ["IoraModel.Lemmas.TlsPlan", "IoraModel.Lemmas.TlsMatrixCli", "IoraModel.Lemmas.TlsMatrixSrv", "IoraModel.Lemmas.TlsMatrixHttp", "IoraModel.Model.TlsPlan",
                                        "IoraModel.Gen.TlsCalls", "IoraModel.Model.TlsTypes"])
     else:
         ctx.cov["obligations"] = len(OBLIGATIONS)
@@ -411,7 +443,9 @@ def run(ctx: Ctx):
     ctx.extra["input_distribution"] = dist
     ctx.extra["outcome_distribution"] = outcomes
     ctx.extra["repo_tree_sha"] = ctx.repo_tree_sha(ANCHOR_FILES)
-    ctx.extra["refuted"] = [{"statement": "Iora.C07.T4_http_statement", "refutation": "Iora.C07.T4_http_refuted", "finding": "F20-http", "witness": "http 1 right empty wrongname name 13 tls"}]
+    ctx.extra["refuted"] = [{"statement": "Iora.C07.T4_http_statement", "refutation": "Iora.C07.T4_http_refuted", "finding": "F20-http", "witness": "http 1 right empty wrongname name 13 tls"},
+                            {"statement": "Iora.C07.T6_http_statement", "refutation": "Iora.C07.T6_http_refuted", "finding": "F20-http", "witness": "http 1 right empty wrongname name 13 tls",
+                             "partial": "Iora.C07.T6_http_partial", "carve_out": "HttpCell.nameUnchecked (verify && url host is a name && certificate not issued for it)"}]
     ctx.extra["not_proved"] = [
         "X.509 path validation, signature checks and the record layer are OpenSSL's: they are the parameter H with the hypotheses Handshake.Assumed, not theorems "
         "(the exhaustive matrix correspondence checks them against the installed library)",
